@@ -63,6 +63,7 @@ type Val struct {
 	A   *Addr
 	Fn  *ssa.Function
 	It  *Iter
+	Box *Val // value boxed into an interface (non-pointer dynamic type)
 	Num string
 	Inf  string // float64 value is +Inf (x/0 with x > 0)
 	NInf string // float64 value is -Inf (x/0 with x < 0)
@@ -276,6 +277,7 @@ type Heap struct {
 	alloc  string
 	lock   string         // lock discipline: "" not held | "r" | "w" (path-sensitive, merged conservatively)
 	formal *formalHeap    // non-nil: a heap made of formal array parameters (spec function bodies) or of separately declared symbols (lemma proofs)
+	bases  map[string]map[string]bool // which cells were written since the enclosing loop cut ("*" = unknown)
 	dirty  map[string]int // written since the enclosing loop cut: minimum allocation serial of the written base refs (0 = pre-existing memory)
 }
 
@@ -287,7 +289,7 @@ type formalHeap struct {
 }
 
 func (h *Heap) clone() *Heap {
-	n := &Heap{m: make(map[string]string, len(h.m)), alloc: h.alloc, dirty: make(map[string]int, len(h.dirty)), formal: h.formal, lock: h.lock}
+	n := &Heap{m: make(map[string]string, len(h.m)), alloc: h.alloc, dirty: make(map[string]int, len(h.dirty)), formal: h.formal, lock: h.lock, bases: copyBases(h.bases)}
 	for k, v := range h.m {
 		n.m[k] = v
 	}
@@ -301,6 +303,31 @@ func (h *Heap) mark(name string, serial int) {
 	if old, ok := h.dirty[name]; !ok || serial < old {
 		h.dirty[name] = serial
 	}
+}
+
+// markBase records which cell (base ref term) of a heap array was written; "*" = unknown / whole array
+func (h *Heap) markBase(name, base string) {
+	if h.bases == nil {
+		h.bases = map[string]map[string]bool{}
+	}
+	if h.bases[name] == nil {
+		h.bases[name] = map[string]bool{}
+	}
+	if base == "" {
+		base = "*"
+	}
+	h.bases[name][base] = true
+}
+
+func copyBases(b map[string]map[string]bool) map[string]map[string]bool {
+	n := map[string]map[string]bool{}
+	for k, s := range b {
+		n[k] = map[string]bool{}
+		for x := range s {
+			n[k][x] = true
+		}
+	}
+	return n
 }
 
 func addrEqual(a, b *Addr) bool {
